@@ -424,7 +424,8 @@ META = {
                 "mixed values, list types, on argument / directive-argument / variable-type / variable-default / input-value-default / type-system paths, two deep siblings in a row; plus the pure "
                 "nesting families up to depth 121), cross-checked by a token-level recount; every recursion limit r in [0, D+1] (sampled when D > 16), every token limit n in [0, N+1] for documents of at most "
                 "48 (quick) / 120 (thorough) lexer items and sampled n otherwise, and random (n, r) pairs; (2) corpus files and random hostile inputs (lexical errors, unbalanced brackets) with sampled n, "
-                "small r and r = number of opening brackets. Each run is compared with the unlimited lexer's item stream (N items, item end offsets, lexical errors) and with D: clauses (a)-(f) of DESIGN section 6 C04. "
+                "small r and r = number of opening brackets. Each run is compared with the unlimited lexer's item stream (N items, item end offsets, lexical errors) and with D: clauses (a)-(f) of DESIGN section 6 C04; "
+                "(3) sessions: one apollo_compiler Parser value reused for 2-6 documents of different depth and length (parse_ast / parse_schema / parse_type in turn), its reached figures compared after every call with apollo-parser's marks for that call. "
                 "distinct_nontrivial = distinct (text, token limit, recursion limit) triples in which at least one limit error was reported",
         "assumptions": COMMON_ASSUMPTIONS + [
             "N is the number of items (tokens, EOF included, and errors) the unlimited apollo_parser::Lexer yields: the relation between limited and unlimited runs is the property, so comparing apollo-rs with itself is intended here",
@@ -435,7 +436,8 @@ META = {
             "inputs whose tree is lossy even without limits, and limited runs whose only text loss is C02's known finding (token after `[` of a list type without item type), are excluded from the text clauses and counted",
         ],
         "floors": {"any": {
-            "source": ["nested_generator", "nest_family", "corpus", "corpus_mutant", "char_soup", "lexeme_soup"],
+            "source": ["nested_generator", "nest_family", "corpus", "corpus_mutant", "char_soup", "lexeme_soup", "session_nested", "session_random"],
+            "reused_parser": ["a later call has smaller marks than an earlier one"],
             "limit_outcome": ["no limit error", "token limit error", "recursion limit error"],
             "token_limit_position": ["n = 0", "0 < n < N-1 (stops inside the document)", "n = N-1 (only EOF refused)", "n = N (exact fit)", "n > N"],
             "depth_vs_limit": ["D < r", "D = r", "D = r+1", "D > r+1"],
@@ -450,7 +452,8 @@ META = {
     "C06": {
         "budget": {"quick": 40, "thorough": 360},
         "rule": "inputs: string literals that RefLexer accepts as exactly one StringValue token: regression list, two exhaustively enumerated sub-spaces (see exhaustive_subspaces), then random block strings "
-                "(mixed space/tab indentation, LF / CRLF / CR, whitespace-only lines shorter and longer than the common indent, BOM, escaped triple quotes) and random quoted strings (all escapes, \\uXXXX over the "
+                "(mixed space/tab indentation, LF / CRLF / CR, whitespace-only lines shorter and longer than the common indent, BOM, escaped triple quotes, lines led by a Unicode space that is not GraphQL WhiteSpace; "
+                "plus every 3-line block string over 11 line shapes built from blanks and one of 10 such Unicode spaces) and random quoted strings (all escapes, \\uXXXX over the "
                 "non-surrogate BMP, raw multi-byte text). Each literal is placed in a host document; compared with RefString (spec static semantics, BlockStringValue transcribed step by step): "
                 "String::from(&cst::StringValue) for all 6 StringValue nodes, the compiler's ast::Document::parse values (description, field-argument default, input-field default, variable default, argument, "
                 "directive argument) and Schema::parse values (description, field-argument default, input-field default); panics are caught. "
@@ -461,7 +464,7 @@ META = {
             "when the syntax-tree value is wrong, compiler hosts that merely repeat it are not reported again (one root cause, one signature)",
         ],
         "floors": {"any": {
-            "source": ["regression", "block-body-8", "quoted-body-10", "random_block", "random_quoted"],
+            "source": ["regression", "unicode_space_lines", "block-body-8", "quoted-body-10", "random_block", "random_quoted"],
             "host": ["cst", "ast_description", "ast_field_argument_default", "ast_input_field_default", "ast_variable_default", "ast_argument", "ast_directive_argument",
                      "schema_description", "schema_field_argument_default", "schema_input_field_default"],
             "escape": ["\\\"", "\\\\", "\\/", "\\b", "\\f", "\\n", "\\r", "\\t", "\\uXXXX", "raw non-ASCII"],
@@ -523,6 +526,7 @@ META = {
     "C07": {
         "budget": {"quick": 30, "thorough": 300},
         "rule": "inputs: prefix + core + suffix. Exhaustive: 60 type cores (names Int/T, list depth <= 3, each level nullable or not) and 16 selection cores x all 343 token sequences of length 0-2 over the 18-symbol alphabet on one side (prefix only, suffix only; spaced and tight joining); 4 type cores and 2 (thorough: 4) selection cores x all 343x343 (prefix, suffix) pairs; then random cores (type depth <= 3, selections generated from the host schema to depth 3) with random affixes of 0-8 tokens and random separators. "
+                "one character out of 21 Unicode white-space / format / control characters (13 of them not GraphQL ignored tokens) inserted at every character boundary of every core, bare and padded with blanks. "
                 "Each text goes through Parser::parse_type + ast::Type::parse, or Parser::parse_selection_set + FieldSet::parse + FieldSet::parse_and_validate (host schema, type Query); a violation is 'no error reported' while RefGrammar says the significant tokens are not exactly one Type / one selection set (outer braces optional). "
                 "distinct_nontrivial = distinct (kind, text) on which at least one entry point reported no error (the implication's antecedent held, so the reference verdict decided the case)",
         "assumptions": COMMON_ASSUMPTIONS + [
@@ -530,7 +534,7 @@ META = {
             "the oracle is RefGrammar's Type / SelectionSet recogniser written in the harness from the October 2021 specification text",
         ],
         "floors": {"any": {
-            "source": ["regression", "exhaustive_prefix", "exhaustive_suffix", "exhaustive_pair", "random_affixes"],
+            "source": ["regression", "exhaustive_prefix", "exhaustive_suffix", "exhaustive_pair", "single_unicode_space_or_control", "random_affixes"],
             "reference_verdict": ["type:accept", "type:reject", "field_set:accept", "field_set:reject"],
             "entry_outcome": [
                 "Parser::parse_type:no-error:reference-accepts", "ast::Type::parse:no-error:reference-accepts",
